@@ -102,7 +102,7 @@ def gen(rng, tier, shape=None):
     return {"black": opts, "funs": funs, "flags": flags, "docstring": rng.random() < 0.3, "future": rng.random() < 0.25,
             "extra_import": rng.random() < 0.4, "clean": rng.random() < 0.4, "fmt_cmd": rng.random() < 0.1,
             "trailer": rng.choice(["", "\n# done ✓\n", "\nif __name__ == '__main__':\n    pass\n"]),
-            "final_newline": rng.random() < 0.9, "crlf": rng.random() < 0.06}
+            "final_newline": rng.random() < 0.9, "crlf": rng.random() < 0.06, "padded_str": rng.random() < 0.3}
 
 
 def render(case):
@@ -115,6 +115,9 @@ def render(case):
     L.append("from inline_snapshot import snapshot")
     if case["extra_import"]:
         L.append("import os  # keep ✓")
+    if case.get("padded_str"):
+        # a multi-line string that is no docstring: black leaves the blanks at its line ends alone
+        L.append('TABLE = """\nname    \nvalue\t\n"""')
     L.append("")
     L.append("class NoRepr:\n    def __init__(self, i): self.i = i\n    def __repr__(self): return f'<NoRepr {self.i}>'\n    def __eq__(self, o): return (o.i == self.i) if isinstance(o, NoRepr) else NotImplemented\n")
     L.append("def check(s, v):\n    assert v == s\n")
